@@ -24,7 +24,8 @@ CLAIM = ('Both back-ends implement the complete primitive interface with the bas
          'mutated in place; namespaced attribute keys use their namespace in both back-ends. Text moved by '
          'reparentChildren is cleared at its source; hasContent counts every child and the text in both back- '
          'ends; the DOM attribute wrapper keeps the Mapping contract (KeyError for a missing name) that `in` '
-         'relies on.')
+         'relies on. A node that may already have a parent is detached before it is attached elsewhere '
+         '(minidom moves, ElementTree duplicates); the builder-module cache keys on keyword values.')
 NOT_DECIDED = "text placement (.text/.tail arithmetic), fragment extraction, equality of the resulting trees as such."
 MODULES = ["treebuilders/base.py", "treebuilders/etree.py", "treebuilders/dom.py", "treebuilders/__init__.py"]
 
@@ -432,6 +433,8 @@ def thorough(ctx):
 def mutants():
     from ..selftest import TextMutant as T
     return [
+        T("adoption-no-detach", "html5parser.py", "                # Remove lastNode from its parents, if any\n                if lastNode.parent:\n                    lastNode.parent.removeChild(lastNode)\n                node.appendChild(lastNode)", "                node.appendChild(lastNode)", "C04.9"),
+        T("cache-key-names-only", "_utils.py", "        kwargs_tuple = tuple(kwargs.items())", "        kwargs_tuple = tuple(sorted(kwargs))", "C04.10"),
         T("reparent-keeps-text", "treebuilders/etree.py", "            self._element.text = \"\"\n            base.Node.reparentChildren(self, newParent)",
           "            base.Node.reparentChildren(self, newParent)", "C04.6"),
         T("hascontent-no-comments", "treebuilders/etree.py", "            return bool(self._element.text or len(self._element))",
